@@ -151,8 +151,11 @@ def check_case(case):
             got = parsed["folding"]
             if len(got) != len(want) or any(not pkaparse.is_rounding_of(g[0], w[0], 2)
                                             or not pkaparse.is_rounding_of(g[1], w[1], 2) for g, w in zip(got, want)):
-                v.append({"clause": "printed/folding-window", "detail": "window %r on grid %r: printed pH %r, expected "
-                          "%r" % (window, grid, [g[0] for g in got][:20], ["%.2f" % w[0] for w in want][:20])})
+                v.append({"clause": "printed/folding-window", "detail": "window %r on grid %r: %d rows printed (%r ... "
+                          "%r), %d expected (%r ... %r)" % (window, grid, len(got), [g[0] for g in got][:4],
+                                                           [g[0] for g in got][-3:], len(want),
+                                                           ["%.2f" % w[0] for w in want][:4],
+                                                           ["%.2f" % w[0] for w in want][-3:])})
         best = min(range(len(prof)), key=lambda i: (prof[i][1], i)) if prof else None
         if best is not None:
             if not (isinstance(parsed["optimum"], tuple) and pkaparse.is_rounding_of(parsed["optimum"][0], prof[best][0], 1)
